@@ -10,10 +10,9 @@
 (* step and compares observations and projection; the first disagreement   *)
 (* is reported with the model's own view.                                  *)
 (***************************************************************************)
-EXTENDS Node, Json, IOUtils
+EXTENDS NodeEnv, Json, IOUtils
 
 P == JsonDeserialize(IOEnv.PARAMS)       \* [node, peerOrder, peers, appOrder, apps, maxConn, pinned]
-ToSet(s) == {s[i] : i \in 1..Len(s)}
 CNodeCfg == P.node
 CPeerOrder == P.peerOrder
 CPeerCfg == [p \in ToSet(P.peerOrder) |-> P.peers[p]]
@@ -23,21 +22,6 @@ CMaxConn == P.maxConn
 CPinned == ToSet(P.pinned)
 
 Traces == JsonDeserialize(IOEnv.TRACES)
-
-FromJson(m) == [m EXCEPT !.auth = ToSet(@), !.acct = ToSet(@)]
-RECURSIVE MsgsFromJson(_)
-MsgsFromJson(ms) == IF ms = <<>> THEN <<>> ELSE <<FromJson(Head(ms))>> \o MsgsFromJson(Tail(ms))
-
-Apply(S, act) ==
-  CASE act.a = "start"          -> EnvStart(S)
-    [] act.a = "plan"           -> [S EXCEPT !.dialPlan = act.plan]
-    [] act.a = "connect"        -> EnvConnect(S)
-    [] act.a = "feed"           -> EnvFeed(S, act.c, MsgsFromJson(act.ms))
-    [] act.a = "peer_close"     -> EnvPeerClose(S, act.c)
-    [] act.a = "peer_reset"     -> EnvPeerReset(S, act.c)
-    [] act.a = "connect_result" -> EnvConnectResult(S, act.c, act.err)
-    [] act.a = "tick"           -> EnvTick(S)
-    [] act.a = "submit"         -> SubmitAnswer(S, act.app, FromJson(act.m))
 
 MsgEq(mm, jm) == /\ mm.cmd = jm.cmd /\ mm.req = jm.req /\ mm.hbh = jm.hbh /\ mm.e2e = jm.e2e
                  /\ mm.app = jm.app /\ mm.rc = jm.rc /\ mm.oh = jm.oh
@@ -50,19 +34,6 @@ EvMatch(me, je) ==
        [] me.ev \in {"app_req", "app_ans"}   -> me.a = je.a /\ MsgEq(me.m, je.m)
        [] me.ev = "submit"                   -> me.a = je.a /\ HdrEq(me.m, je.m) /\ me.r = je.r
 OutMatch(mo, jo) == Len(mo) = Len(jo) /\ \A i \in 1..Len(mo) : EvMatch(mo[i], jo[i])
-
-ConnSt(S, c) == IF c = 0 THEN "" ELSE S.conn[c].st
-\* projection of the public state, in exactly the shape the harness records (world.snap)
-RECURSIVE SortedSeq(_)
-SortedSeq(s) == IF s = {} THEN <<>> ELSE LET m == CHOOSE x \in s : \A y \in s : x <= y IN <<m>> \o SortedSeq(s \ {m})
-Proj(S) ==
-  [t |-> S.now,
-   peers |-> [p \in Peers |-> [conn |-> S.peer[p].conn, st |-> ConnSt(S, S.peer[p].conn), reason |-> S.peer[p].reason,
-                               ldisc |-> S.peer[p].lastDisc, lconn |-> S.peer[p].lastConnect]],
-   conns |-> SortedSeq(ToSet(S.connections)), socks |-> SortedSeq(ToSet(S.peerSockets)),
-   apps |-> [a \in Apps |-> IF S.appReady[a] THEN 1 ELSE 0],
-   closed |-> SortedSeq({c \in ConnIds : S.conn[c].used /\ S.conn[c].sock = "closed"}),
-   cst |-> LET cs == SortedSeq(ToSet(S.connections)) IN [i \in 1..Len(cs) |-> [c |-> cs[i], st |-> S.conn[cs[i]].st]]]
 
 SnapMatch(S, js) ==
   LET pj == Proj(S) IN
